@@ -29,7 +29,7 @@ LEVELS = {
     ],
 }
 WITNESSES = ['set_below_rejected', 'set_accepted', 'advance_while_started', 'still_while_stopped',
-             'speed_changed_while_started', 'inductive_step', 'sync_after_step']
+             'speed_changed_while_started', 'inductive_step', 'sync_after_step', 'sync_read_during_step']
 STUBS = ['time() in sismic.clock.clock (and time.time) -> scripted source advanced only by the harness']
 ASSUMPTIONS = ['real-time increments >= 0', 'speeds >= 0',
                'time values are exact reals (IEEE-754 rounding outside the claim)',
@@ -221,6 +221,13 @@ def sync(g, job, level):
     # a chain: `mid` runs on a clock synchronized with `it`; `sy2` follows `mid` (not the root of the chain)
     mid = Interpreter(sc, clock=cm.SynchronizedClock(it))
     sy2 = cm.SynchronizedClock(mid)
+    # "always": also while a step is under way -- an observer of the followed interpreter reads the follower at every
+    # meta-event, `step started` (which announces the new step time) included
+    seen = []
+
+    def observer(event):
+        seen.append((event.name, sy.time, it.time, getattr(event, 'time', None) if event.name == 'step started' else None))
+    it.attach(observer)
     for k in range(level['K']):
         a = g.real('a%d' % k, 0)
         it.clock.time = it.clock.time + a
@@ -235,13 +242,19 @@ def sync(g, job, level):
             it.queue(Event('e', delay=g.real('qd%d' % k, 0)))
         g.prove_all([('sync_unchanged_by_queue', Eq(sy.time, before), {'k': k, 'q': q}),
                      ('interpreter_time_unchanged_by_queue', Eq(it.time, before), {'k': k, 'q': q})])
+        del seen[:]
         step = it.execute_once()
         conds = [('sync_equals_interpreter_time', Eq(sy.time, it.time), {'k': k}),
                  ('interpreter_time_is_sampled_clock', Eq(it.time, expected), {'k': k})]
         if step is not None:
             conds.append(('macrostep_time', Eq(step.time, expected), {'k': k}))
+        for nm, st_, it_, ann in seen:
+            conds.append(('sync_equals_step_time_during_the_step', Eq(st_, expected), {'k': k, 'meta_event': nm}))
+            if ann is not None:
+                conds.append(('step_started_announces_the_time_the_follower_shows', Eq(ann, st_), {'k': k}))
         g.prove_all(conds)
         g.witness('sync_after_step')
+        g.witness('sync_read_during_step', bool(seen))
         # the follower of `mid` shows mid's last step time, also while the root has already moved on
         g.prove(Eq(sy2.time, mid.time), 'chained_sync_follows_its_own_interpreter', {'k': k, 'phase': 'root stepped'})
         if (job['m'][k] if k < len(job.get('m', [])) else g.choice('m%d' % k, 2)):
